@@ -283,3 +283,17 @@ pub fn replacen_str(re: &Regex, text: &str, n: usize, rep: &str) -> Result<(Stri
         Err(p) => Err(format!("Panic({})", panic_msg(p))),
     }
 }
+
+/// Every unbounded repeat of the pattern is interpreted by the VM itself: the regex is compiled
+/// to a VM program and no Delegate instruction contains an unbounded quantifier. For such
+/// patterns the reference matcher's cut of empty optional iterations is exactly the VM's rule.
+pub fn vm_owns_loops(re: &Regex) -> bool {
+    let t = program_text(re);
+    if t.starts_with("wrapped") {
+        return false;
+    }
+    t.lines().filter(|l| l.contains("Delegate")).all(|l| {
+        let pat = l.split("pattern: ").nth(1).unwrap_or("");
+        !(pat.contains('*') || pat.contains('+') || pat.contains(",}"))
+    })
+}
